@@ -140,6 +140,7 @@ struct SimState {
     long fired_read_eio = 0, fired_read_eof = 0, fired_write_err = 0, fired_close_err = 0, fired_open = 0;
     // callback sink
     std::vector<CallbackRec> callbacks;
+    int cb_errno_mode = 0;	// what the error function leaves in errno: 0 what it found, 1 zero, 2 ENOTTY, 3 EINTR (vnaerr(3): the library sets errno again before returning)
     // sanitizer
     int san_errors = 0;
     std::string san_report;
